@@ -125,6 +125,41 @@ func genC08(tier string, run int, r *simcore.Rand) *harness.Plan {
 		}
 		ops = append(ops[:at], append(qs, ops[at:]...)...)
 	}
+	// three runs in ten: the same time-sorted permanode query right before and
+	// right after the arrival of a file (not a claim): a permanode whose
+	// time comes from its content moves in the order although no claim
+	// arrived, so a sorted list kept from the first query is stale
+	if rq := simcore.NewRand(simcore.Mix(r.Uint64(), "bracket")); rq.Bool(0.3) {
+		var cands []int
+		for j, op := range ops {
+			if j >= 2 && op.K == "deliver" && op.I < len(spec.Items) && spec.Items[op.I].K == "file" {
+				cands = append(cands, j)
+			}
+		}
+		if len(cands) > 0 {
+			j := cands[rq.Intn(len(cands))]
+			corpus := cfg.Mode == "incr"
+			if cfg.Mode == "scan" {
+				for k := 0; k < j; k++ {
+					if ops[k].K == "corpus" {
+						corpus = true
+					}
+				}
+			}
+			if corpus {
+				mk := func() Op {
+					return Op{K: "query", Q: &Query{C: &QC{PN: &QPN{}}, Sort: []string{"-created", "created", "-mod", ""}[rq.Intn(4)], Limit: -1}}
+				}
+				q1 := mk()
+				q2 := q1
+				if rq.Bool(0.3) {
+					q2 = mk()
+				}
+				ops = append(ops[:j+1], append([]Op{q2}, ops[j+1:]...)...)
+				ops = append(ops[:j], append([]Op{q1}, ops[j:]...)...)
+			}
+		}
+	}
 	// one run in 150: more matches than the search handler's page limit (1000):
 	// a bulk delivery of opaque blobs, then a few queries that match them
 	// all, asked through Handler.Query and through the HTTP entry point
